@@ -477,6 +477,20 @@ func (a *Act) intrinsic(name string, fv FuncV, args []Value) (Value, bool) {
 	case "verifRestore":
 		a.st = in.snap.clone()
 		return nil, true
+	case "verifPar":
+		// two operations other goroutines may run concurrently: both are executed from the same
+		// pre-state with every memory access recorded, then conflicting pairs are examined
+		fa, fb := args[0].(FuncV), args[1].(FuncV)
+		in.firstRecObj = in.nextObj
+		snap := a.st.clone()
+		in.recTag = "A"
+		a.callFunc(fa, nil)
+		in.recTag = "B"
+		a.st = snap
+		a.callFunc(fb, nil)
+		in.recTag = ""
+		in.raceCandidates(a)
+		return nil, true
 	case "verifRaceCandidates":
 		in.raceCandidates(a)
 		return nil, true
@@ -562,12 +576,10 @@ func (a *Act) intrinsic(name string, fv FuncV, args []Value) (Value, bool) {
 	return nil, false
 }
 
-// raceCandidates pairs recorded accesses of run "A" and run "B" to pre-existing objects.
+// raceCandidates pairs the recorded accesses of run "A" and run "B" (same pre-state) on objects that
+// existed before the runs: same cell, at least one write, not both atomic, and - decided by the
+// solver - both paths feasible with no common lock (one side exclusive).
 func (in *Interp) raceCandidates(a *Act) {
-	type key struct {
-		obj  int
-		path string
-	}
 	seen := map[string]bool{}
 	pairs, queries := 0, 0
 	for _, x := range in.accesses {
@@ -579,7 +591,11 @@ func (in *Interp) raceCandidates(a *Act) {
 				continue
 			}
 			pairs++
-			label := fmt.Sprintf("obj%d%s  %s(%s) vs %s(%s)", x.obj, x.path, x.site, rw(x.write), y.site, rw(y.write))
+			desc := x.desc
+			if desc == "" {
+				desc = y.desc
+			}
+			label := fmt.Sprintf("%s: %s (%s) || %s (%s)", desc, x.site, rw(x.write), y.site, rw(y.write))
 			if seen[label] {
 				continue
 			}
@@ -593,13 +609,24 @@ func (in *Interp) raceCandidates(a *Act) {
 				}
 			}
 			queries++
-			if in.sat(x.g, y.g, Not(common)) {
-				seen[label] = true
-				in.findings = append(in.findings, Finding{Kind: "race-candidate", Label: label})
+			in.obligations++
+			if len(in.samples) < 12 {
+				in.samples = append(in.samples, "race: "+label)
 			}
+			if !in.satK("race", x.g, y.g, Not(common)) {
+				in.discharged++
+				continue
+			}
+			seen[label] = true
+			f := Finding{Kind: "race", Label: label, Model: in.solver.Model(in.vars), Where: x.site + " / " + y.site}
+			for _, k := range in.knownFor("race", label) {
+				f.Known = k.ID
+			}
+			in.findings = append(in.findings, f)
 		}
 	}
 	in.events = append(in.events, fmt.Sprintf("race pairs=%d queries=%d candidates=%d", pairs, queries, len(seen)))
+	in.accesses = nil
 }
 
 func rw(w bool) string {
